@@ -56,6 +56,13 @@ def obligations(ctx: Ctx):
     return [
         Ob(f"{P}.R1", "R", "literal spellings re-lex with their type (numbers, booleans, null)", LX.FUNCS_EMIT + LX.FUNCS_LEX, partial(LX.ob_literals, oid=f"{P}.R1")),
         Ob(f"{P}.T1", "R", "unescape(escape(v)) == v for every string", LX.FUNCS_EMIT + LX.FUNCS_LEX, partial(LX.ob_escape_inverse, oid=f"{P}.T1")),
+        # "reading its canonical text yields that same content again": the scalar classes the emitter writes bare / quoted re-lex to the same value
+        Ob(f"{P}.R0", "R", "tokenize control skeleton matches the step model", LX.FUNCS_LEX, LX.ob_skeleton),
+        Ob(f"{P}.R2.var", "R", "bare $variables re-lex to one VARIABLE token", LX.FUNCS_EMIT + LX.FUNCS_LEX, partial(LX.ob_var, oid=f"{P}.R2")),
+        Ob(f"{P}.R2.ident", "R", "bare identifier-class strings re-lex to one IDENTIFIER token", LX.FUNCS_EMIT + LX.FUNCS_LEX, partial(LX.ob_ident, oid=f"{P}.R2", which="ident")),
+        Ob(f"{P}.R2.ann", "R", "bare NAME<qualifier> strings re-lex to one IDENTIFIER token", LX.FUNCS_EMIT + LX.FUNCS_LEX, partial(LX.ob_ident, oid=f"{P}.R2", which="ann")),
+        Ob(f"{P}.R2.expr", "R", "bare operator expressions re-lex segment by segment", LX.FUNCS_EMIT + LX.FUNCS_LEX, partial(LX.ob_expr, oid=f"{P}.R2")),
+        Ob(f"{P}.T1.shape", "R", "quoted emission is one single-quoted STRING token", LX.FUNCS_EMIT + LX.FUNCS_LEX, partial(LX.ob_quoted_shape, oid=f"{P}.T1")),
         Ob(f"{P}.F1", "F", "the parser builds sibling lists by append only", [PARSER + ":Parser.*"], ob_parser_append_only),
         Ob(f"{P}.B1", "B", "content read == content written == content of the canonical text, field by field against the model", ["octave_mcp.core.parser:parse", "octave_mcp.core.parser:parse_with_warnings", "octave_mcp.core.emitter:emit"], ob_b1, timeout=3000),
     ]
